@@ -90,7 +90,9 @@ func mutate(rng *Rng, src string, others []CorpusItem) string {
 }
 
 // mutateBytes applies byte-level damage (used by the crash monitor, C16).
-func mutateBytes(rng *Rng, src string) string {
+func mutateBytes(rng *Rng, src string) string { return mutateBytesDepth(rng, src, 5000) }
+
+func mutateBytesDepth(rng *Rng, src string, maxDepth int) string {
 	b := []byte(src)
 	n := 1 + rng.Intn(4)
 	for k := 0; k < n; k++ {
@@ -126,6 +128,12 @@ func mutateBytes(rng *Rng, src string) string {
 		case 4:
 			open := []string{"(", "[", "{", "`${", "<a>", "((", "[{", "function(){", "class{", "a?", "a=>", "!", "-", "a.", "a?.", "{a:", "<T>(", "/*"}[rng.Intn(18)]
 			depth := []int{10, 100, 1000, 5000}[rng.Intn(4)]
+			if depth > maxDepth {
+				depth = maxDepth
+			}
+			if open == "a=>" && depth > 500 {
+				depth = 500 // nested arrows cost cubic time (C16 known finding, probed separately)
+			}
 			i := rng.Intn(len(b) + 1)
 			b = append(append(append([]byte{}, b[:i]...), []byte(strings.Repeat(open, depth))...), b[i:]...)
 		case 5:
